@@ -474,4 +474,88 @@ theorem mem_beforeCommitActs (regs : List Reg) (a : Act) (h : a ∈ beforeCommit
   · obtain ⟨h1, h2, h3⟩ := mem_preActs regs 0 a h
     exact ⟨h1, by omega, Or.inr h3⟩
 
+-- ---------------------------------------------------------------- start-up recovery
+
+theorem firstBackup_congr (n : Nat) (fs fs' : Files) (id : Nat)
+    (h : ∀ i, fs (.backup id i) = fs' (.backup id i)) : firstBackup n fs id = firstBackup n fs' id := by
+  induction n with
+  | zero => rfl
+  | succ n ih => simp only [firstBackup, ih, h n]
+
+theorem firstBackup_none (n : Nat) (fs : Files) (id : Nat) (h : ∀ i, i < n → fs (.backup id i) = none) :
+    firstBackup n fs id = none := by
+  induction n with
+  | zero => rfl
+  | succ n ih =>
+    simp only [firstBackup, ih (fun i hi => h i (by omega)), h n (by omega)]
+    rfl
+
+theorem firstBackup_single (n : Nat) (fs : Files) (id i : Nat) (v : Bytes) (hi : i < n)
+    (hv : fs (.backup id i) = some v) (ho : ∀ j, j ≠ i → fs (.backup id j) = none) :
+    firstBackup n fs id = some (i, v) := by
+  induction n with
+  | zero => omega
+  | succ n ih =>
+    by_cases hlt : i < n
+    · simp only [firstBackup, ih hlt]
+    · have hin : i = n := by omega
+      subst hin
+      simp only [firstBackup, firstBackup_none i fs id (fun j hj => ho j (by omega)), hv]
+      rfl
+
+/-- The database expects part `id` to hold `b`, and recovery will find it: either the part file
+is in place (and no backup of it lies around), or it was renamed away and its backup is the one
+recovery picks. -/
+def Held (n : Nat) (fs : Files) (id : Nat) (b : Bytes) : Prop :=
+  (fs (.part id) = some b ∧ ∀ i, fs (.backup id i) = none) ∨
+  (fs (.part id) = none ∧ ∃ i, firstBackup n fs id = some (i, b))
+
+theorem held_recover (n : Nat) (fs : Files) (id : Nat) (b : Bytes) (h : Held n fs id b) :
+    recover n fs (.part id) = some b := by
+  rcases h with ⟨hp, _⟩ | ⟨hp, i, hf⟩
+  · simp [recover, hp]
+  · simp [recover, hp, hf]
+
+theorem held_congr (n : Nat) (fs fs' : Files) (id : Nat) (b : Bytes)
+    (h : ∀ nm : FName, nm.id = id → fs' nm = fs nm) (hh : Held n fs id b) : Held n fs' id b := by
+  have hb : ∀ i, fs' (.backup id i) = fs (.backup id i) := fun i => h _ rfl
+  rcases hh with ⟨hp, hn⟩ | ⟨hp, i, hf⟩
+  · exact Or.inl ⟨by rw [h _ rfl]; exact hp, fun i => by rw [hb]; exact hn i⟩
+  · exact Or.inr ⟨by rw [h _ rfl]; exact hp, i, by rw [firstBackup_congr n fs' fs id hb]; exact hf⟩
+
+/-- One atomic step keeps `Held` when it belongs to another part id, or is the rename-away of a
+DeletePart of this id. -/
+theorem held_applyAct (n : Nat) (s : Live) (a : Act) (id : Nat) (b : Bytes)
+    (ha : a.reg.id ≠ id ∨ ∃ i, i < n ∧ a = .renameAway (.del id) i)
+    (hh : Held n s.files id b) : Held n (applyAct s a).files id b := by
+  rcases ha with ha | ⟨i, hi, rfl⟩
+  · exact held_congr n _ _ id b (fun nm hnm => applyAct_other s a nm (by rw [hnm]; exact fun e => ha e.symm)) hh
+  · rcases hh with ⟨hp, hn⟩ | ⟨hp, j, hf⟩
+    · refine Or.inr ⟨?_, i, ?_⟩
+      · simp [applyAct, renameAway, Reg.id, hp, Files.set]
+      · apply firstBackup_single n _ id i b hi
+        · simp [applyAct, renameAway, Reg.id, hp, Files.set]
+        · intro j hj
+          simp [applyAct, renameAway, Reg.id, hp, Files.set, hj, hn j]
+    · refine Or.inr ⟨?_, j, ?_⟩
+      · simp [applyAct, renameAway, Reg.id, hp]
+      · simpa [applyAct, renameAway, Reg.id, hp] using hf
+
+theorem held_runActs (n : Nat) (s : Live) (as : List Act) (id : Nat) (b : Bytes)
+    (ha : ∀ a ∈ as, a.reg.id ≠ id ∨ ∃ i, i < n ∧ a = .renameAway (.del id) i)
+    (hh : Held n s.files id b) : Held n (runActs s as).files id b := by
+  induction as generalizing s with
+  | nil => exact hh
+  | cons a as ih =>
+    simp only [runActs, List.foldl_cons] at ih ⊢
+    exact ih _ (fun a' ha' => ha a' (List.mem_cons_of_mem _ ha'))
+      (held_applyAct n s a id b (ha a (List.mem_cons_self ..)) hh)
+
+theorem recover_part_of_some (n : Nat) (fs : Files) (id : Nat) (v : Bytes) (h : fs (.part id) = some v) :
+    recover n fs (.part id) = some v := by
+  simp [recover, h]
+
+theorem consistentB_iff (fs : Files) (refs : Refs) : consistentB fs refs = true ↔ Consistent fs refs := by
+  simp [consistentB, Consistent]
+
 end Pithos.TxFs
